@@ -69,10 +69,11 @@ def run(R):
             ks = cfg_nodes_with_call(f, lambda k: callee_last(k) == setter)
             c.need(len(ks) == 1, '%s: %s not found' % (name, setter))
             n, k = ks[0]
-            ts = [t for t in g.nodes if t.kind == 'test' and norm(t.ast) in ('not self.fut.done()', 'self.fut.done()')]
+            # (a local that merely holds the future -- `fut = self.fut` -- is written out)
+            ts = [t for t in g.nodes if t.kind == 'test' and ctext(t.ast, f) in ('not self.fut.done()', 'self.fut.done()')]
             ok = False
             for t in ts:
-                edge = 'true' if norm(t.ast).startswith('not') else 'false'
+                edge = 'true' if ctext(t.ast, f).startswith('not') else 'false'
                 if n in guard_region(g, t, edge):
                     ok = True
             c.check(ok, f, k, 'the future is resolved only if it is not already done (a late callback cannot raise InvalidStateError)', tag='guard-' + name)
